@@ -282,3 +282,63 @@ Fixpoint check_world_S (prev : list fview) (hist : list swstep_rec) : bool :=
           else list_eqb fview_eqb cur prev
       end && check_world_S cur r
   end.
+
+(* ---------------------------------------------------------------- TypeBlocks grown directly (kernel level) *)
+Inductive tbop :=
+| TAppend (b : vblk)                          (* tb.append(array) *)
+| TExtendTB (rows : Z) (bs : list vblk)       (* tb.extend(TypeBlocks of that height) *)
+| TExtendList (bs : list vblk).               (* tb.extend(iterable of arrays) *)
+
+Record tbseen := mk_tbseen {
+  tbs_cols : list (dtype * list val);
+  tbs_shape : Z * Z;
+  tbs_dtypes : list dtype;
+  tbs_rowdt : option dtype;
+  tbs_layout : list (Z * bool)
+}.
+
+Definition tbstep_rec := (tbop * outcome * tbseen)%type.
+
+Definition M_tbstep (t : tb val) (op : tbop) : tb val * outcome :=
+  match op with
+  | TAppend b => match M_tb_append val t b with Ok t' => (t', Ok tt) | Err e => (t, Err e) end
+  | TExtendTB rows bs => M_tb_extend val t rows bs
+  | TExtendList bs => M_tb_append_all val t bs
+  end.
+
+Definition tb_seen_eqb (t : tb val) (ob : tbseen) : bool :=
+  cols_eqb (flat_map (fun j => match M_tb_column val t j with Some x => [x] | None => [] end) (zrange (t_ncols t))) (tbs_cols ob) &&
+  (t_rows t =? fst (tbs_shape ob)) && (t_ncols t =? snd (tbs_shape ob)) &&
+  list_eqb dtype_eqb (t_dtypes t) (tbs_dtypes ob) &&
+  option_eqb dtype_eqb (t_rowdt t) (tbs_rowdt ob) &&
+  layout_eqb (layout_of t) (tbs_layout ob).
+
+Fixpoint check_tb_M_from (t : tb val) (hist : list tbstep_rec) : bool :=
+  match hist with
+  | [] => true
+  | (op, out, seen) :: r =>
+      let '(t1, o) := M_tbstep t op in
+      outcome_eqb o out && tb_seen_eqb t1 seen && check_tb_M_from t1 r
+  end.
+
+Definition check_tb_M (rows : Z) (blocks : list vblk) (hist : list tbstep_rec) : bool :=
+  check_tb_M_from (tb_of_blocks val v_resolve rows blocks) hist.
+
+(* specification of one TypeBlocks.append: accepted exactly when the heights agree, and then the columns
+   seen before stay and the block's columns follow; refused -> nothing changes *)
+Fixpoint check_tb_S (rows : Z) (before : list (dtype * list val)) (hist : list tbstep_rec) : bool :=
+  match hist with
+  | [] => true
+  | (op, out, seen) :: r =>
+      match op with
+      | TAppend b =>
+          if b_rows b =? rows
+          then is_ok out && cols_eqb (tbs_cols seen) (before ++ blk_flat b)
+          else negb (is_ok out) && cols_eqb (tbs_cols seen) before
+      | _ =>   (* extend: whatever was accepted, the columns seen before are an unchanged prefix *)
+          cols_eqb (firstn (length before) (tbs_cols seen)) before
+      end &&
+      (fst (tbs_shape seen) =? rows) && (snd (tbs_shape seen) =? zlen (tbs_cols seen)) &&
+      list_eqb dtype_eqb (tbs_dtypes seen) (map fst (tbs_cols seen)) &&
+      check_tb_S rows (tbs_cols seen) r
+  end.
